@@ -197,7 +197,7 @@ func propC13(r *Run) {
 	r.Nontrivial(fmt.Sprintf("enc %d %d %d %d", len(f[0]), len(f[1]), len(f[2]), len(f[3])))
 
 	// responses
-	mlen := []int{0, 1, 2, 252, 253, 254, 300}[r.Choose("mlen", 7)]
+	mlen := []int{0, 1, 2, 252, 253, 254, 300, 65531, 65532, 65533, 65534, 65535, 65536, 70000}[r.Choose("mlen", 14)]
 	msg := seededBytes(uint64(r.Choose("mseed", 1000)), mlen)
 	if r.Choose("msg-leading-space", 4) == 0 && mlen > 0 {
 		msg = " " + msg[1:]
@@ -206,7 +206,12 @@ func propC13(r *Run) {
 	var rb bytes.Buffer
 	rerr := resp.Encode(&rb)
 	want := RefEncodeResponse(resp.Result, msg)
-	if rerr != nil || !bytes.Equal(rb.Bytes(), want) {
+	if 3+len(msg) > 65535 {
+		// the text does not fit a 16-bit length: the encoder must refuse and write nothing
+		if rerr == nil || rb.Len() > 0 {
+			r.Fail("encode/response-overflow", "Response with a %d-byte message: Encode returned err=%v and wrote %d bytes (length prefix %x); a part longer than 65535 bytes cannot be framed", len(msg), rerr, rb.Len(), rb.Bytes()[:min(2, rb.Len())])
+		}
+	} else if rerr != nil || !bytes.Equal(rb.Bytes(), want) {
 		r.Fail("encode/response-format", "Response{%v,%d bytes}.Encode gives %x (err=%v), wire format says %x", resp.Result, len(msg), rb.Bytes(), rerr, want)
 	}
 	if 3+len(msg) <= 256 || msg == "" {
